@@ -9,8 +9,8 @@ RULE = ("per case 6-14 operations. rt: a rule of a family with every enum varian
         "be Ok or Err, never a panic; a test). item: metric items with arbitrary counters, names with separators and leading/trailing (unicode) blanks: Display then from_string. line: raw lines "
         "with 0-12 fields, '+' signs, leading zeros, overflowing values, non-ASCII digits, and every kind of torn prefix. Non-trivial: every case; distinct = distinct op text.")
 NONTRIVIAL_TAGS = []
-ASSUMPTIONS = ["the JSON text layer (serde_json tokens, escapes, number formatting and parsing) is trusted; rule_json_array_parser is serde_json::from_str::<Vec<Rule>> and is called as such "
-               "(the datasource features do not build offline)"]
+ASSUMPTIONS = ["the JSON text layer (serde_json tokens, escapes, number formatting and parsing) is trusted; documents are parsed by the real "
+               "datasource::rule_json_array_parser (harness-ds links sentinel-core with the ds_consul feature, which builds offline)"]
 TRUSTED = ["serde / serde_json"]
 KEEP_PREFIX = 0
 
@@ -28,9 +28,15 @@ NAMES = ["a", "res", "/foo/*", "a|b", "|", "a b", " lead", "trail ", "　wide　
 THR = ["0", "1/3", "1/7", "1/2", "5", "123456789/1000", "1/1000000", "1000000", "1/40000", "3/10", "nan", "inf", "-1/3", "-inf", "2/3"]
 
 
-def rule_line(rng, op="rt"):
+def long_name(rng):
+    """a long name of multi-byte characters behind 0-3 ASCII characters: every byte offset of a long document falls inside some
+    character for some alignment (error paths that quote or cut the rejected text; seed C18-d)"""
+    return "abc"[:rng.randint(0, 3)] + rng.choice(["中", "é", "\U0001F600", "文"]) * rng.randint(60, 140)
+
+
+def rule_line(rng, op="rt", long=False):
     fam = rng.choice(["flow", "flow", "br", "br", "hs", "hs", "iso", "sys"])
-    name = rng.choice(NAMES)
+    name = long_name(rng) if long else rng.choice(NAMES)
     idn = rng.choice(["r1", "x", "中", "a|b", ""])
     head = "%s fam=%s idhex=%s reshex=%s" % (op, fam, hx(idn), hx(name))
     if fam == "flow":
@@ -164,8 +170,13 @@ def gen(rng, tier):
             elif x < 0.6:
                 fam = rng.choice(list(SCHEMAS))
                 ops.append("parse fam=%s docs=%s" % (fam, "|".join(doc(rng, fam) for _ in range(rng.choice([1, 1, 1, 2, 3])))))
-            elif x < 0.7:
+            elif x < 0.66:
                 ops.append(rule_line(rng, "mut") + (" cut=%d" % rng.randrange(400) if rng.random() < 0.6 else " flip=%d" % rng.randrange(3000)))
+            elif x < 0.7:
+                # long documents with multi-byte names: cut anywhere (mostly beyond the first few hundred bytes), or a flipped bit
+                ops.append(rule_line(rng, "mut", long=True) + (" cut=%d" % rng.choice([rng.randrange(200, 900), rng.randrange(2000)]) if rng.random() < 0.7 else " flip=%d" % rng.randrange(6000)))
+                if rng.random() < 0.5:
+                    ops.append(rule_line(rng, "rt", long=True))
             elif x < 0.85:
                 ops.append(item_line(rng))
             else:
